@@ -789,11 +789,30 @@ def check_C04(ctx, thms=None):
             cases.append((b'm', {b'm': text.encode('latin1')}, {'text': {'m': text}}))
             verdicts.append((v, why))
     # every single insertion of a structural token at every position, and every single deletion, of a few valid sources
-    STRUCT = [',', ';', ':', ':=', 'END', 'DO', '=', 'THEN', 'WITH', 'x0', '3', 'IN', 'OUT']
-    for _ in range(ctx.n(8, 60)):
-        g = sources.Gen(r)
-        defs, main = g.program()
-        base = sources.toks(defs, main)
+    STRUCT = [',', ';', ':', ':=', 'END', 'DO', '=', 'THEN', 'WITH', 'x0', '3', 'IN', 'OUT', '!= 0', 'RUN', 'LOOP', 'STOP', 'GOTO']
+    # two fixed sources that contain every construct of the grammar (so that the exhaustive single edits do not depend on
+    # what the random generator happens to produce), then random ones
+    KITCHEN = [
+        'PROGRAM f IN a , b OUT r DO r := a + 1 END PROGRAM g DO x0 := 2 END x := RUN f WITH 1 , y END ; LOOP x DO m : y := y - 1 ; '
+        'IF y = 0 THEN GOTO m END ; WHILE x != 0 DO x := RUN f WITH RUN f WITH x , 2 END , 3 END ; z := RUN g WITH END END ; STOP ; GOTO m',
+        'PROGRAM h IN a DO e : a := a ; IF a = 3 THEN GOTO e ; STOP END q := RUN h WITH q END',
+    ]
+    bases = [k.split(' ') for k in KITCHEN]
+    bases = [[('!= 0' if t == '!=' else t) for t in b if t != '0' or True] for b in bases]
+    for b in bases:
+        # re-join the two-character operator `!= 0` that the split separated
+        i = 0
+        while i < len(b) - 1:
+            if b[i] == '!= 0' and b[i + 1] == '0':
+                del b[i + 1]
+            i += 1
+    for it in range(ctx.n(8, 60) + len(bases)):
+        if it < len(bases):
+            base = bases[it]
+        else:
+            g = sources.Gen(r)
+            defs, main = g.program()
+            base = sources.toks(defs, main)
         if len(base) > 90:
             continue
         variants = [base[:i] + [t] + base[i:] for i in range(len(base) + 1) for t in STRUCT] + [base[:i] + base[i + 1:] for i in range(len(base))]
